@@ -22,7 +22,9 @@ RULE = ("cases: (a) synthetic — a periodic structure with 1–4 planted copies
         "pattern terms forwards and REVERSED; a replacement pattern in the search pattern's frame (retained / changed / "
         "moved / new atoms) with its own types, terms and tables — in ~40 % of the cases a RETAINED atom's pattern type "
         "has the same label and element as the structure's type of that atom but another mass and pair coefficient "
-        "(both pair tables present); per term kind one of the 11 compatible table "
+        "(both pair tables present); in ~30 % a same-element pattern atom NUDGED by 1e-4…0.09 Å from a non-kept search "
+        "atom (not shared by the documented rule: matched atom removed, pattern atom inserted) carrying pattern terms, with "
+        "original terms attached to the matched atom; per term kind one of the 11 compatible table "
         "combinations (all of them for every kind in the thorough tier); replace_all, replace_fraction; (b) chains — a "
         "second replacement (search = geometry of the first replacement pattern) applied to the result of the first; "
         "(c) the documented workflow on docs/examples (uio66.cif, atom types but no pair table, metal centre then linker, "
@@ -511,6 +513,9 @@ class Batch:
         if meta.get("same_label_types") and not case["opts"].get("replace_all"):
             ctx.count("same-label-reparameterised-retained-types", meta["same_label_types"])
             ctx.count("cases-with-same-label-retained-type")
+        if meta.get("nudged_atoms") and not case["opts"].get("replace_all"):
+            ctx.count("cases-with-nudged-same-element-atom")
+            ctx.count("original-terms-on-nudged-partner", meta.get("terms_on_nudged_partner", 0))
         if stats:
             ctx.count("matches", stats["matches"])
             ctx.count("pattern-terms-checked", stats["pattern_terms"])
